@@ -338,6 +338,14 @@ def populate(c, be, dirspec, parts):
             be.add_file(n, sub)
 
 
+def _tree(root):
+    out = []
+    for d, dirs, files in os.walk(root):
+        rel = os.path.relpath(d, root)
+        out += [os.path.normpath(os.path.join(rel, n)) + ('/' if n in dirs else '') for n in dirs + files]
+    return out
+
+
 def make_managers(be, chain):
     settings = Settings(credentials={'username': 'u', 'password': 'p'})
     settings.shares.download = be.dl
@@ -417,6 +425,8 @@ def h_name(c, chain='DN', shape='xxx', dirspec=None):
         remote = build_remote(c, shape)
         parts = reference_parts(c, remote)
         populate(c, be, dirspec, parts)
+        if not c.symbolic:
+            c.note('remote path', remote, 'download directory before', sorted(_tree(be.dl)))
         sm, tm = make_managers(be, chain)
         log = []
         observe_choices(c, be, sm, log)
@@ -473,6 +483,8 @@ def h_concurrent(c, chain='DN', shapes=('c', 'c'), dirspec=None, staggered=False
         remotes = [build_remote(c, sh, base=f'r{i}_') for i, sh in enumerate(shapes)]
         parts = reference_parts(c, remotes[0])
         populate(c, be, dirspec, parts)
+        if not c.symbolic:
+            c.note('remote paths', remotes, 'download directory before', sorted(_tree(be.dl)))
         sm, tm = make_managers(be, chain)
         log = []
         observe_choices(c, be, sm, log)
@@ -611,10 +623,12 @@ META = {
                        'the number inside a numbered copy (digits symbolic; concretised by forking where the code hashes it)'],
     'discriminants': ['chain of strategies (default chain, the 6 orders of the three shipped strategies, D / DK / KD)', 'length of the remote path / shape (which positions may be separators)',
                       'number and template of pre-existing entries, listing order', 'which ready task continues (concurrent harness)', 'staggered or simultaneous start'],
-    'bounds': {'quick': {'free_form_remote_path_len': '0..5', 'structured': 'up to 3 components of up to 3 characters', 'dir_entries': '0..3 per directory',
-                         'concurrent_downloads': 2},
-               'thorough': {'free_form_remote_path_len': '0..8', 'structured': 'up to 4 components', 'dir_entries': '0..4 per directory, both listing orders',
-                            'concurrent_downloads': '2..3'}},
+    'bounds': {'quick': {'free_form_remote_path_len': '0..5 (all 10 chains)', 'structured': '6 shapes: up to 4 components, 1..2 separators, @@ / drive prefixes',
+                         'dir_entries': '0..3 per directory (+ one job with 4), candidate name length 1..3, one symbolic sub-directory',
+                         'concurrent_downloads': 2, 'job_time_budget_s': 120},
+               'thorough': {'free_form_remote_path_len': '0..8 (all 10 chains)', 'structured': '15 shapes up to 14 characters',
+                            'dir_entries': '0..4 per directory, both listing orders, candidate name length 1..4', 'concurrent_downloads': '2..3',
+                            'job_time_budget_s': 900, 'second_engine': 'CrossHair, 3 contracts, 10 s each'}},
     'outside': ['characters outside Σ and names longer than the bound (ENAMETOOLONG)', 'Windows path semantics (ntpath, drive-relative paths, reserved names, case-insensitive '
                 'directories): the model is POSIX; a backslash left inside a name is nevertheless reported', 'symbolic links inside the download directory',
                 'chains without DefaultNamingStrategy (nothing derives a file name) and user-written strategies',
